@@ -1,5 +1,8 @@
-(* C16 — Forced duplicate edges are counted per copy and removed cleanly.  Statements only; proofs in Forced.v. *)
-From BG Require Import Base DirectedModel DirectedProofs Forced.
+(* C16 — Forced duplicate edges are counted per copy and removed cleanly.  Statements only; proofs in Forced.v (directed labelled class),
+   UForced.v (undirected), ForcedEq.v ("== the graph built without force"), MForced.v / MForcedInv.v (multigraphs). *)
+From Coq Require Import List Arith ZArith.
+From BG Require Import Base DirectedModel DirectedProofs UndirectedModel UndirectedProofs Equality Forced UForced ForcedEq MultiModel MForced MForcedInv.
+Import ListNotations.
 Local Open Scope Z_scope.
 
 (* In ANY state reachable with forced insertions (the weak invariant: no "no duplicates" clause) addEdge(force=true) inserts one more copy:
@@ -38,3 +41,167 @@ Example C16_example :
   let '(g, r) := run true repaired (init 2) [AddEdge 0 1 7%Z false; AddEdge 0 1 7%Z true; AddEdge 1 1 3%Z true; AddEdge 1 1 3%Z true] in
   r = Done /\ nth 0 (adj g) [] = [1; 1]%nat /\ enum g = 4 /\ fst (remove_duplicates g) = fst (run true repaired (init 2) [AddEdge 0 1 7%Z false; AddEdge 1 1 3%Z false]).
 Proof. vm_compute. auto. Qed.
+
+Local Close Scope Z_scope.
+(* ---- undirected class: the weak invariant WInvU (symmetric multiplicities instead of "no duplicates"); a forced insertion adds one entry
+   to each of the two lists (one for a loop) and one to the edge count; removeEdge removes every copy from both lists; removeDuplicateEdges
+   restores the full invariant, the edge count becoming the number of distinct unordered pairs.
+   "== the graph built without force": for a history of insertions, forced-then-deduplicated == unforced EXACTLY WHEN repeated insertions of
+   a pair agree on the label (the forced run keeps the last label, the unforced one the first) - always for unlabelled graphs.
+   Multigraphs: a forced insertion of multiplicity k adds k to the total and 1 to the edge count; removeDuplicateEdges subtracts the stored
+   multiplicity once per removed entry and restores the invariant total = sum of stored multiplicities. ---- *)
+Theorem C16_undirected_forced_add :
+  forall (L : Type) (has_store : bool) (g : (@dgraph L)) (a b : nat) (l : L),
+        WInvU has_store g ->
+        a < size g ->
+        b < size g ->
+        exists g' : (@dgraph L),
+          u_add_edge has_store repaired g a b l true = (g', Done) /\
+          WInvU has_store g' /\
+          size g' = size g /\
+          enum g' = (enum g + 1)%Z /\
+          (forall i : nat, nb g' i = (if i =? b then nb g b ++ [a] else if i =? a then nb g a ++ [b] else nb g i)) /\
+          (forall i j : nat, count j (nb g' i) = count j (nb g i) + (if hit a b i j then 1 else 0)) /\
+          u_has_edge g' a b = Val true /\ (forall e : edge, lfind e (labels g') = (if has_store && edge_eqb (ordered a b) e then Some l else lfind e (labels g))).
+Proof. intros L. exact (@UForced.u_forced_add_spec L). Qed.
+Print Assumptions C16_undirected_forced_add.
+Theorem C16_undirected_remove_edge :
+  forall (L : Type) (has_store : bool) (g : (@dgraph L)) (a b : nat),
+        WInvU has_store g ->
+        a < size g ->
+        b < size g ->
+        exists g' : (@dgraph L),
+          u_remove_edge g a b = (g', Done) /\
+          WInvU has_store g' /\
+          size g' = size g /\
+          enum g' = (enum g - Z.of_nat (count b (nb g a)))%Z /\
+          (forall i : nat, nb g' i = (if i =? a then remove_all b (nb g a) else if i =? b then remove_all a (nb g b) else nb g i)) /\
+          (forall i j : nat, count j (nb g' i) = (if hit a b i j then 0 else count j (nb g i))) /\
+          (forall e : edge, lfind e (labels g') = (if edge_eqb (ordered a b) e then None else lfind e (labels g))).
+Proof. intros L. exact (@UForced.u_remove_edge_weak L). Qed.
+Print Assumptions C16_undirected_remove_edge.
+Theorem C16_undirected_remove_duplicates :
+  forall (L : Type) (has_store : bool) (g : (@dgraph L)),
+        WInvU has_store g ->
+        exists g' : (@dgraph L),
+          u_remove_duplicates g = (g', Done) /\
+          InvU has_store g' /\
+          size g' = size g /\
+          labels g' = labels g /\
+          (forall i : nat, nb g' i = dedup [] (nb g i)) /\
+          (forall i j : nat, In j (nb g' i) <-> In j (nb g i)) /\
+          (forall i j : nat, count j (nb g' i) = (if mem j (nb g i) then 1 else 0)) /\ enum g' = utotal (map (dedup []) (adj g)).
+Proof. intros L. exact (@UForced.u_remove_duplicates_spec L). Qed.
+Print Assumptions C16_undirected_remove_duplicates.
+Theorem C16_undirected_edge_count_after_dedup :
+  forall (L : Type) (has_store : bool) (g : (@dgraph L)),
+        WInvU has_store g ->
+        exists (g' : (@dgraph L)) (es : list (nat * nat)),
+          u_remove_duplicates g = (g', Done) /\ enum g' = Z.of_nat (length es) /\ NoDup es /\ (forall i j : nat, In (i, j) es <-> i <= j /\ In j (nb g i)).
+Proof. intros L. exact (@UForced.u_remove_duplicates_cardinal L). Qed.
+Print Assumptions C16_undirected_edge_count_after_dedup.
+Theorem C16_dedup_equals_unforced_iff :
+  forall (L : Type) (leqb : L -> L -> bool) (hs : bool) (n : nat) (ops : list ins),
+        in_rng n ops ->
+        exists (gf gd gu : (@dgraph L)) (b : bool),
+          run hs repaired (init n) (adds true ops) = (gf, Done) /\
+          remove_duplicates gf = (gd, Done) /\
+          run hs repaired (init n) (adds false ops) = (gu, Done) /\ graph_eqb leqb gd gu = Val b /\ (b = true <-> labels_settle leqb hs ops).
+Proof. intros L. exact (@ForcedEq.forced_dedup_eqb L). Qed.
+Print Assumptions C16_dedup_equals_unforced_iff.
+Theorem C16_dedup_equals_unforced :
+  forall (L : Type) (leqb : L -> L -> bool) (hs : bool) (n : nat) (ops : list ins),
+        in_rng n ops ->
+        hs = false \/ same_labels leqb ops ->
+        exists gf gd gu : (@dgraph L),
+          run hs repaired (init n) (adds true ops) = (gf, Done) /\
+          remove_duplicates gf = (gd, Done) /\ run hs repaired (init n) (adds false ops) = (gu, Done) /\ graph_eqb leqb gd gu = Val true.
+Proof. intros L. exact (@ForcedEq.forced_dedup_equals_unforced L). Qed.
+Print Assumptions C16_dedup_equals_unforced.
+Theorem C16_undirected_dedup_equals_unforced_iff :
+  forall (L : Type) (leqb : L -> L -> bool) (hs : bool) (n : nat) (ops : list ins),
+        in_rng n ops ->
+        exists (gf gd gu : (@dgraph L)) (b : bool),
+          urun hs repaired (init n) (uadds true ops) = (gf, Done) /\
+          u_remove_duplicates gf = (gd, Done) /\
+          urun hs repaired (init n) (uadds false ops) = (gu, Done) /\ graph_eqb leqb gd gu = Val b /\ (b = true <-> u_labels_settle leqb hs ops).
+Proof. intros L. exact (@ForcedEq.u_forced_dedup_eqb L). Qed.
+Print Assumptions C16_undirected_dedup_equals_unforced_iff.
+Theorem C16_undirected_dedup_equals_unforced :
+  forall (L : Type) (leqb : L -> L -> bool) (hs : bool) (n : nat) (ops : list ins),
+        in_rng n ops ->
+        hs = false \/ same_labels leqb (map norm ops) ->
+        exists gf gd gu : (@dgraph L),
+          urun hs repaired (init n) (uadds true ops) = (gf, Done) /\
+          u_remove_duplicates gf = (gd, Done) /\ urun hs repaired (init n) (uadds false ops) = (gu, Done) /\ graph_eqb leqb gd gu = Val true.
+Proof. intros L. exact (@ForcedEq.u_forced_dedup_equals_unforced L). Qed.
+Print Assumptions C16_undirected_dedup_equals_unforced.
+Theorem C16_multigraph_forced_add :
+  forall (m : mgraph) (s d : nat) (k : Z),
+        WInv true (mg m) ->
+        s < size (mg m) ->
+        d < size (mg m) ->
+        k <> 0%Z ->
+        exists m' : mgraph,
+          dm_add_multiedge repaired m s d k true = (m', Done) /\
+          add_edge true repaired (mg m) s d k true = (mg m', Done) /\
+          WInv true (mg m') /\
+          size (mg m') = size (mg m) /\
+          mtot m' = (mtot m + k)%Z /\
+          enum (mg m') = (enum (mg m) + 1)%Z /\
+          (forall i j : nat, count j (nb (mg m') i) = count j (nb (mg m) i) + (if (i =? s) && (j =? d) then 1 else 0)) /\
+          has_edge (mg m') s d = Val true /\ (forall e : edge, lget e (labels (mg m')) = (if edge_eqb (s, d) e then k else lget e (labels (mg m)))).
+Proof. exact MForced.dm_forced_add_spec. Qed.
+Print Assumptions C16_multigraph_forced_add.
+Theorem C16_multigraph_remove_duplicates :
+  forall m : mgraph,
+        WInv true (mg m) ->
+        exists m' : mgraph,
+          dm_remove_duplicates m = (m', Done) /\
+          remove_duplicates (mg m) = (mg m', Done) /\
+          Inv true (mg m') /\
+          labels (mg m') = labels (mg m) /\
+          (forall i : nat, nb (mg m') i = dedup [] (nb (mg m) i)) /\
+          enum (mg m') = (enum (mg m) - dropped (adj (mg m)))%Z /\ mtot m' = (mtot m - (wtotal (labels (mg m)) (adj (mg m)) - wtotal (labels (mg m)) (adj (mg m'))))%Z.
+Proof. exact MForced.dm_remove_duplicates_spec. Qed.
+Print Assumptions C16_multigraph_remove_duplicates.
+Theorem C16_undirected_multigraph_forced_add :
+  forall (m : mgraph) (a b : nat) (k : Z),
+        WInvU true (mg m) ->
+        a < size (mg m) ->
+        b < size (mg m) ->
+        k <> 0%Z ->
+        exists m' : mgraph,
+          um_add_multiedge repaired m a b k true = (m', Done) /\
+          u_add_edge true repaired (mg m) a b k true = (mg m', Done) /\
+          WInvU true (mg m') /\
+          size (mg m') = size (mg m) /\
+          mtot m' = (mtot m + k)%Z /\
+          enum (mg m') = (enum (mg m) + 1)%Z /\
+          (forall i j : nat, count j (nb (mg m') i) = count j (nb (mg m) i) + (if hit a b i j then 1 else 0)) /\
+          u_has_edge (mg m') a b = Val true /\ (forall e : edge, lget e (labels (mg m')) = (if edge_eqb (ordered a b) e then k else lget e (labels (mg m)))).
+Proof. exact MForced.um_forced_add_spec. Qed.
+Print Assumptions C16_undirected_multigraph_forced_add.
+Theorem C16_undirected_multigraph_remove_duplicates :
+  forall m : mgraph,
+        WInvU true (mg m) ->
+        exists m' : mgraph,
+          um_remove_duplicates m = (m', Done) /\
+          u_remove_duplicates (mg m) = (mg m', Done) /\
+          InvU true (mg m') /\
+          labels (mg m') = labels (mg m) /\
+          (forall i : nat, nb (mg m') i = dedup [] (nb (mg m) i)) /\
+          enum (mg m') = (enum (mg m) - (utotal (adj (mg m)) - utotal (adj (mg m'))))%Z /\
+          mtot m' = (mtot m - (uwtotal (labels (mg m)) (adj (mg m)) - uwtotal (labels (mg m)) (adj (mg m'))))%Z.
+Proof. exact MForced.um_remove_duplicates_spec. Qed.
+Print Assumptions C16_undirected_multigraph_remove_duplicates.
+Theorem C16_multigraph_dedup_restores_invariant :
+  forall m : mgraph,
+        MWInv m ->
+        exists m' : mgraph,
+          dm_remove_duplicates m = (m', Done) /\
+          Totals.TInv m' /\
+          size (mg m') = size (mg m) /\
+          labels (mg m') = labels (mg m) /\ (forall i j : nat, In j (nb (mg m') i) <-> In j (nb (mg m) i)) /\ mtot m' = Totals.msum (labels (mg m)).
+Proof. exact MForcedInv.dm_remove_duplicates_restores. Qed.
+Print Assumptions C16_multigraph_dedup_restores_invariant.
